@@ -26,7 +26,8 @@ var Def = driver.PropDef{
 		"R2 offset provenance (the stored offset is cachedTunnel[len-1].Offset; every enqueue stamps ds.sourceOffset + this iteration's decoder position; no goroutine writes ds.sourceOffset while the parser reads it); " +
 		"R3 one database per batch (runIdMap keyed by the last command's Db; SELECT is a flushing barrier: barrier-before-append and the automaton's select rows, strict; injected SELECTs are barrier keys or only exist in fixed target-db mode); " +
 		"R5 resume wiring (LoadCheckpoint results flow to the PSYNC run id, ds.sourceOffset and ds.startDbId without being overwritten; sendPSyncCmd stores the offset SendPSyncContinue returns; SendPSyncContinue sends offset+1 unless -1 and returns the unincremented offset on CONTINUE; the start database is enqueued first); " +
-		"R6 filtered stretch (every enqueue of the parser loop lies behind tests that found every drop flag -- above all the database verdict of the last SELECT -- false since the flag was last written: nothing is forwarded, and no checkpoint offset stamped, inside a filtered stretch of the stream).",
+		"R6 filtered stretch (every enqueue of the parser loop lies behind tests that found every drop flag -- above all the database verdict of the last SELECT -- false since the flag was last written: nothing is forwarded, and no checkpoint offset stamped, inside a filtered stretch of the stream); " +
+		"R7 database tag (the Db tag of every command enqueued in the parser loop -- the key of the sender's run-id bookkeeping -- is, on every path, the number of a forwarded SELECT, ds.startDbId, or a value that is no database number: a constant database number, or the zero value of a declaration, never reaches an enqueue unless ds.startDbId is known to be that number).",
 	NotDecided: "the crash-consistency theorem itself (dataset at every cut = history up to the stored offset): it needs the target's MULTI/EXEC semantics and a model of partial delivery. R4 (writer/reader agreement of the checkpoint field names) is decided under C14.R1; only the writer's name construction is checked here.",
 	Trusted:    []string{"go/parser, go/types, go/cfg (x/tools v0.29.0)", "Redis MULTI/EXEC atomicity", "redigo Conn.Send/Flush preserve call order on one connection"},
 	Run:        Run,
@@ -52,6 +53,8 @@ func Run(c *core.Ctx) {
 		// R6: no command is forwarded (and no checkpoint offset stamped) while a filter verdict says drop
 		c03.VerdictHonoured(c, p, "R6.filtered-stretch")
 		c03.Expect(c, "R6.filtered-stretch", 1)
+		// R7: the database tag of a queued command is never a database number nobody selected
+		r7(c, p)
 	}
 	c03.Expect(c, "R1.envelope", 25)
 	c03.Expect(c, "R2.offset", 8)
